@@ -56,7 +56,7 @@ func draw(t *rapid.T) *pbt.Case {
 		s = hidden
 	}
 	c.Spec = s
-	c.SetInt("hops", rapid.IntRange(0, 2).Draw(t, "hops"))
+	c.SetInt("hops", rapid.IntRange(0, 3).Draw(t, "hops"))
 	return c
 }
 
@@ -110,6 +110,29 @@ func check(c *pbt.Case, r *pbt.R) {
 					where = "after transfer"
 				}
 				r.Failf("the message of a safe standard sentinel is missing from the report and the safe details ("+where+")", "%q (hop %d)\nspec %s", txt, i, c.Spec)
+			}
+		}
+		// A tag value the caller wrapped as safe (redact.SafeString) is an
+		// argument declared safe: it is kept in the per-layer safe details
+		// of a visible layer across hops (positions behind barriers or
+		// inside multi-cause branches are not claimed).
+		for x := c.Spec; x != nil && !gen.IsBarrierKind(x.K) && !gen.IsMultiKind(x.K); x = x.C {
+			if x.K != "tags" {
+				continue
+			}
+			for j := 0; 2*j < len(x.S); j++ {
+				dup := false
+				for k := j + 1; 2*k < len(x.S); k++ {
+					dup = dup || x.S[2*k] == x.S[2*j] // a later tag with the same key replaces it
+				}
+				if x.I[j] != 2 || dup {
+					continue
+				}
+				for _, tk := range gen.Tokens(x.S[2*j+1]) {
+					if !have[tk] {
+						r.Failf("a tag value declared safe is missing from the report and the safe details", "token %s (hop %d)\nspec %s", tk, i, c.Spec)
+					}
+				}
 			}
 		}
 		for tk := range taint.Safe {
